@@ -835,6 +835,12 @@ pub fn run(args: &Args) {
             Spec::Mod { seg: 1, tr: None, rep: 0xFFFF, div: 10, n: 1000, seed: 122 },
             Spec::SwapMod(0, (0xFF, 0)),
             Spec::Pwe(123),
+            // flag / configuration datagrams as FIRST members too: two handlers that share the control-flag word run in
+            // one frame, and the first member's flag must survive the second (seeded change C01-9: EmulateGPIOIn
+            // rebuilt the word from its low byte and dropped the fan bit)
+            Spec::Fan(true),
+            Spec::Reads(true),
+            Spec::GpioIn(0b1001),
         ];
         let seconds = [Spec::Fan(true), Spec::GpioIn(0b0110), Spec::Reads(true), Spec::CpuGpio(0xA0), Spec::Debug([0x21u64 << 56 | 5, 0, 0x10u64 << 56, 0]), Spec::SilRate(9, 11)];
         for (i, a) in firsts.iter().enumerate() {
